@@ -23,6 +23,7 @@ ALT_TARGET = {"C06-D": ["C19"],   # given for C06; the Python wrapper replaces `
               "C05-G": ["C18", "C05"],
               # round 5: changes whose site is the Python wrapper / binding (C19) or the command (C18)
               "C11-L": ["C19", "C11"], "C07-L": ["C19", "C07"], "C08-L": ["C19", "C08"], "C06-J": ["C19", "C06"], "C17-L": ["C19", "C17"],
+              "C02-M": ["C19", "C02"],   # round 6: the Python wrapper caches the serialised rule by object identity (C19 K1: the wrapper only (de)serialises)
               "C16-L": ["C18", "C16"]}   # the command validates dead branches before evaluating: the command is no faithful wrapper any more (C18 K5)   # given for C06; the Python wrapper replaces `data is None` by Python truthiness: a wrapper defect (C19 K1)
 
 
